@@ -79,3 +79,4 @@ require (
 replace github.com/ava-labs/hypersdk => /repo
 
 replace github.com/ava-labs/hypersdk/examples/morpheusvm => /repo/examples/morpheusvm
+replace github.com/cockroachdb/pebble => /verif/.cache/pebble-patched
